@@ -175,7 +175,7 @@ def c13(run):
                              "the control points, both rotated rectangles; non-trivial = at least 3 control points"}
     run.model_check("MC_Hull", cfg=tier_n(run, "MC_Hull.cfg", "MC_Hull_thorough.cfg"), timeout=3000)
     shapes_stage(run, "hull", "Trace_Hull", lambda c, i: [dict(c, perm=i * 7919 + 1)])
-    family_random(run, "hull", "Trace_Hull", tier_n(run, 8000, 300000))
+    family_random(run, "hull", "Trace_Hull", tier_n(run, 8000, 900000))
 
 FAMILY_MODULE["measure"] = "Trace_Measure"
 
@@ -202,7 +202,7 @@ def c14(run):
                              "coordinate types, exact-similarity images, Area with a transform; non-trivial = non-empty"}
     run.model_check("MC_Geometry", cfg="MC_Geometry.cfg", timeout=900)
     shapes_stage(run, "measure", "Trace_Measure", lambda c, i: [dict(c, force=i % 4, ct=(i // 4) % 4, ts=1 + i % 4, tdx=i % 9 - 4, tdy=(i // 3) % 9 - 4)])
-    family_random(run, "measure", "Trace_Measure", tier_n(run, 10000, 400000))
+    family_random(run, "measure", "Trace_Measure", tier_n(run, 10000, 1200000))
 
 FAMILY_MODULE["boundary"] = "Trace_Boundary"
 
@@ -230,7 +230,7 @@ def c15(run):
                              "collections with empty members; non-trivial = non-empty"}
     run.model_check("MC_Geometry", cfg="MC_Geometry.cfg", timeout=900)
     shapes_stage(run, "boundary", "Trace_Boundary", lambda c, i: [c])
-    family_random(run, "boundary", "Trace_Boundary", tier_n(run, 10000, 400000))
+    family_random(run, "boundary", "Trace_Boundary", tier_n(run, 10000, 1200000))
 
 FAMILY_MODULE["rtree"] = "Trace_RTree"
 
@@ -256,7 +256,7 @@ def c11(run):
                              "searches with a scripted callback answering Stop / wrapped Stop / error at every visit position for small "
                              "trees, and Nearest calls; non-trivial = more than 4 items"}
     run.model_check("MC_RTree", cfg=tier_n(run, "MC_RTree.cfg", "MC_RTree_thorough.cfg"), timeout=3000, heap="24g")
-    family_random(run, "rtree", "Trace_RTree", tier_n(run, 400, 6000))
+    family_random(run, "rtree", "Trace_RTree", tier_n(run, 400, 15000))
 
 FAMILY_MODULE["twkb"] = "Trace_TWKB"
 
@@ -304,7 +304,7 @@ def c04(run):
                              "non-trivial = non-empty"}
     run.model_check("MC_WKB", timeout=1800)
     family_enumerated(run, "wkb", "Gen_WKB", "Trace_WKB", gen_cfg=tier_n(run, "Gen_WKB.cfg", "Gen_WKB_full.cfg"))
-    family_random(run, "wkb", "Trace_WKB", tier_n(run, 4000, 200000))
+    family_random(run, "wkb", "Trace_WKB", tier_n(run, 4000, 600000))
 
 FAMILY_MODULE["wkt"] = "Trace_WKT"
 
@@ -333,7 +333,7 @@ def c05(run):
                              "tokens); non-trivial = non-empty"}
     run.model_check("MC_WKT", timeout=1800)
     family_enumerated(run, "wkt", "Gen_WKT", "Trace_WKT", gen_cfg=tier_n(run, "Gen_WKT.cfg", "Gen_WKT_full.cfg"))
-    family_random(run, "wkt", "Trace_WKT", tier_n(run, 4000, 200000))
+    family_random(run, "wkt", "Trace_WKT", tier_n(run, 4000, 600000))
 
 FAMILY_MODULE["geojson"] = "Trace_GeoJSON"
 
@@ -358,7 +358,7 @@ def c06(run):
                              "members; non-trivial = non-empty"}
     run.model_check("MC_GeoJSON", timeout=600)
     family_enumerated(run, "geojson", "Gen_GeoJSON", "Trace_GeoJSON")
-    family_random(run, "geojson", "Trace_GeoJSON", tier_n(run, 4000, 200000))
+    family_random(run, "geojson", "Trace_GeoJSON", tier_n(run, 4000, 600000))
 
 FAMILY_MODULE["decode"] = "Trace_Decode"
 
@@ -424,7 +424,7 @@ def c12(run):
     family_enumerated(run, "envelope", "Gen_Envelope", "Trace_Envelope", gen_cfg=tier_n(run, "Gen_Envelope.cfg", "Gen_Envelope_thorough.cfg"))
     run.exhaustive = True
     shapes_stage(run, "envelope", "Trace_Envelope", lambda c, i: [{"kind": "geom", "wa": c["wa"], "wb": "POINT(1 1)"}])
-    family_random(run, "envelope", "Trace_Envelope", tier_n(run, 5000, 200000))
+    family_random(run, "envelope", "Trace_Envelope", tier_n(run, 5000, 600000))
 
 FAMILY_MODULE["struct"] = "Trace_StructOps"
 
@@ -451,7 +451,7 @@ def c16(run):
                              "XY-only operations"}
     run.model_check("MC_StructOps", cfg=tier_n(run, "MC_StructOps.cfg", "MC_StructOps_thorough.cfg"), timeout=3000)
     family_enumerated(run, "struct", "Gen_StructOps", "Trace_StructOps", gen_cfg=tier_n(run, "Gen_StructOps.cfg", "Gen_StructOps_thorough.cfg"))
-    family_random(run, "struct", "Trace_StructOps", tier_n(run, 1500, 60000))
+    family_random(run, "struct", "Trace_StructOps", tier_n(run, 1500, 200000))
 
 FAMILY_MODULE["equal"] = "Trace_Equality"
 
@@ -478,7 +478,7 @@ def c18(run):
                              "pairs (same / reordered / reordered + one ulp / one ulp) over all float classes; ToleranceXY pairs"}
     run.model_check("MC_Equality", timeout=1800)
     family_enumerated(run, "equal", "Gen_Equality", "Trace_Equality")
-    family_random(run, "equal", "Trace_Equality", tier_n(run, 6000, 300000))
+    family_random(run, "equal", "Trace_Equality", tier_n(run, 6000, 1000000))
 
 FAMILY_MODULE["linear"] = "Trace_Linear"
 
@@ -523,7 +523,7 @@ def c17(run):
                 out.append({"kind": "simplify", "line": line, "tn": simp[k][0], "td": simp[k][1], "ring": line[0] == line[-1] and len(line) >= 4 and k % 2 == 0, "ct": (i + v) % 4})
         return out
     pairs_stage(run, "linear", "Trace_Linear", "Gen_Shapes.cfg", lin, "lines", gen="Gen_Shapes")
-    family_random(run, "linear", "Trace_Linear", tier_n(run, 16000, 600000))
+    family_random(run, "linear", "Trace_Linear", tier_n(run, 16000, 1500000))
 
 FAMILY_MODULE["empty"] = "Trace_Empties"
 
@@ -549,7 +549,7 @@ def c20(run):
                              "non-empty lattice geometry with 1..5 InsertEmpty / RemoveEmpty steps and a 25-entry observation vector "
                              "(predicates, DE-9IM both ways, measures, envelope, hull, distance, set-operation point sets)"}
     family_enumerated(run, "empty", "Gen_Empties", "Trace_Empties")
-    family_random(run, "empty", "Trace_Empties", tier_n(run, 1200, 60000))
+    family_random(run, "empty", "Trace_Empties", tier_n(run, 1200, 150000))
 
 FAMILY_MODULE["purity"] = "Trace_Purity"
 
@@ -601,7 +601,7 @@ def c10(run):
                              "history is executed by two fresh processes and joined (map iteration order differs per process and per "
                              "range), so results must be functions of the operand digests across goroutines and processes"}
     run.model_check("MC_Purity", timeout=1800)
-    n = tier_n(run, 40, 600)
+    n = tier_n(run, 40, 1500)
     # generate the cases once (record mode of a non-race build only to obtain the repro strings would execute them; use Gen via record and keep repro)
     seedfile = _os.path.join(run.dir, "purity-cases.ndjson")
     import random
